@@ -125,8 +125,20 @@ static void single_not_barrier(void){ for(int sc=0; sc<3 && !viol; sc++){ dispat
       for(int w=0; w<50000 && !atomic_load(&nested_ret); w++) usleep(100);
       if(!atomic_load(&nested_ret)) fail("a dispatch_apply of one iteration called from an item of the same concurrent queue did not return within 5 s",atomic_load(&applied),0,0); }
     if(!viol){ dispatch_barrier_sync(q,^{}); dispatch_release(q); if(t) dispatch_release(t); } } }
+// "for all iteration counts": more iterations than a 32-bit index can count, on the in-order path (a serial queue): the indices arrive
+// as 0, 1, 2, ... n-1, each once, and the call returns (about 2^32 trivial invocations, some 9 s)
+static _Atomic uint64_t big_next; static atomic_int big_bad;
+static void big_work(void *c, size_t i){ (void)c; uint64_t e=atomic_load_explicit(&big_next,memory_order_relaxed); if(i!=e && !atomic_exchange(&big_bad,1)) fail("dispatch_apply on a serial queue did not invoke the indices in order, each once: expected index / got (low 31 bits)",(long)(e&0x7fffffff),(long)(i&0x7fffffff),(long)(e>>32)); atomic_store_explicit(&big_next,e+1,memory_order_relaxed); }
+static int big_serial(void){ dispatch_queue_t s=dispatch_queue_create("big.s",NULL); uint64_t n=(1ull<<32)+3; atomic_store(&big_next,0);
+  __block _Atomic int ret=0; _Atomic int *rp=&ret; pthread_t t; struct { dispatch_queue_t q; uint64_t n; _Atomic int *r; } a={s,n,rp};
+  dispatch_async(dispatch_get_global_queue(0,0),^{ dispatch_apply_f((size_t)a.n,a.q,NULL,big_work); atomic_store(a.r,1); }); (void)t;
+  for(int w=0; w<1800 && !atomic_load(&ret) && !viol; w++) usleep(100000);
+  if(!viol && !atomic_load(&ret)) fail("dispatch_apply of 2^32 + 3 iterations on a serial queue did not return within 3 minutes: invocations so far (high, low 31 bits)",(long)(atomic_load(&big_next)>>31),(long)(atomic_load(&big_next)&0x7fffffff),0);
+  else if(!viol && atomic_load(&big_next)!=n) fail("dispatch_apply of 2^32 + 3 iterations returned after another number of invocations: low 31 bits / high",(long)(atomic_load(&big_next)&0x7fffffff),(long)(atomic_load(&big_next)>>31),0);
+  return 1; }
 int main(int argc,char**argv){ seed=argc>1?strtoull(argv[1],0,0):1; rounds=argc>2?atoi(argv[2]):40; ncpu=(int)sysconf(_SC_NPROCESSORS_ONLN);
   evs=calloc(MAXEV,sizeof *evs);
+  if(argc>3 && atoi(argv[3])){ big_serial(); if(viol) printf("ORACLE VIOL seed=%llu %s\n",(unsigned long long)seed,vmsg); else printf("ORACLE ok items=1\n"); fflush(stdout); _exit(viol?1:0); }
   QS=dispatch_queue_create("s",NULL); QC=dispatch_queue_create("c",DISPATCH_QUEUE_CONCURRENT);
   dispatch_queue_t s2=dispatch_queue_create("s2",NULL); QSS=dispatch_queue_create_with_target("ss",DISPATCH_QUEUE_CONCURRENT,s2);   // concurrent queue targeting a serial one
   dispatch_queue_t c2=dispatch_queue_create("c2",DISPATCH_QUEUE_CONCURRENT); QCC=dispatch_queue_create_with_target("cc",DISPATCH_QUEUE_CONCURRENT,c2);
